@@ -171,7 +171,10 @@ def c20_run(c):
         if r.returncode != 0:
             return (i, None, r.stdout[-1500:])
         out = os.path.join(c["outdir"], "cfg-%d" % i)
-        r2 = subprocess.run([os.path.join(tdir, "release", "scale-harness"), "--streams", streams, "--seed", str(c["seed"]), "--out", out,
+        # configurations with std also run the input-stack stream (IoReader, decode_from_bytes ...):
+        # entry points that exist only under a feature must agree with the ones that always exist
+        st = streams + (",stacks" if any(("full" in f or "codec-std" in f) for f in feats) else "")
+        r2 = subprocess.run([os.path.join(tdir, "release", "scale-harness"), "--streams", st, "--seed", str(c["seed"]), "--out", out,
                              "--tier", "thorough" if c["thorough"] else "quick"], stdout=subprocess.PIPE, stderr=subprocess.STDOUT, text=True, timeout=3000)
         if r2.returncode != 0:
             return (i, None, "harness run failed: " + r2.stdout[-800:])
